@@ -42,6 +42,7 @@ compared with a, b, c2, c3 (and c, d when the algorithm object the run was resum
 from __future__ import annotations
 
 import copy
+import io
 import json
 import os
 import warnings
@@ -71,9 +72,16 @@ REQUIRED_THEOREMS = [
     "Acn.C09.roundtrip_resume_eq", "Acn.C09.roundtrip_iff",
     "Acn.C09.body_preserves_wf", "Acn.C09.reachable_wf", "Acn.C09.crash_json_resume_eq",
     "Acn.C09.resume_eq_stateful", "Acn.C09.reachable_wf_stateful", "Acn.C09.crash_json_resume_eq_stateful",
+    "Acn.C09.json_string_roundtrip", "Acn.C09.json_int_roundtrip", "Acn.C09.json_value_roundtrip",
+    "Acn.C09.scalar_codec_lawful", "Acn.C09.json_leaf_types", "Acn.C09.registry_text_roundtrip",
+    "Acn.C09.roundtrip_resume_eq_concrete", "Acn.C09.crash_json_resume_eq_concrete",
+    "Acn.C09.crash_json_resume_eq_stateful_concrete",
 ]
 BUDGET = {"quick": 40, "thorough": 450, "search": 120}
-TRUSTED = ["json.dumps/json.loads round-trip Python floats, ints, strings, lists and dicts exactly (dict order kept)",
+TRUSTED = ["CPython's json module behaves as AcnModel/JsonText.lean models it (escapes, separators, int / float scanner): "
+           "compared byte for byte on the to_json() document of every fired crash point and on probe strings / ints, each run; "
+           "float.__repr__ / float() round-trip every double (IEEE-754 shortest round-trip printing) - the one assumption "
+           "the Lean statements keep (RegistryJson.DoubleText.RoundTrip); dict order is insertion order",
            "id(obj) is unique among live objects; pydoc.locate finds the class named in the registry",
            "CPython heapq: a list that satisfies the heap invariant still does after being copied element by element",
            "numpy.random.normal is a process-global stream (the harness replaces it by a fixed stream that "
@@ -95,6 +103,15 @@ ASSUMPTIONS = ["the scheduler is a function of the Interface view (no hidden sta
                "minimum pilot, repaired in /repo fcfc030)",
                "sessions are well formed (0 <= arrival < departure, distinct ids): with departure <= arrival the "
                "unplug event is already due when the run is resumed and is processed one period earlier",
+               "numpy scalars as EV fields / period (np.int64, int32, int16, uint8, uint32; np.float16 / float32 / float64 "
+               "requested energy) are written as Python numbers of the same VALUE; their dtype is not part of the document. "
+               "For EV fields the resumed arithmetic is the same (every operation they enter is promoted to float64); "
+               "np.float32 BATTERY fields are not: the uninterrupted run keeps rounding to float32 inside the battery, the "
+               "loaded one computes in doubles, and the runs drift apart by ~1e-8 relative (measured: feature "
+               "float32_battery_resume=differs) - equality of VALUES is not promised for such inputs, sharing / types / "
+               "document equality still are",
+               "a string with a lone UTF-16 surrogate is not an id (it has no UTF-8 form; the model's strings are Unicode "
+               "scalar sequences)",
                "StochasticNetwork (contrib) defines no _to_dict: its waiting queue is documented as not restorable "
                "(base.py:295-305, UserWarning); it is in scope for crash+resume, not for the JSON round trip"]
 RULE = ("scenario = 1-4 stations of mixed EVSE classes (continuous / deadband / finite), 0-8 sessions with ideal and "
@@ -122,6 +139,15 @@ RULE = ("scenario = 1-4 stations of mixed EVSE classes (continuous / deadband / 
         "PS-11, …) with differing voltages; 2 of 5 are tie-heavy (several sessions per arrival / departure time in "
         "shuffled queue order, duplicate recompute events: >= 2 pending events with equal (timestamp, precedence) at "
         "the crash); event_history is compared as a SEQUENCE, pilots / rates per station BY ID; "
+        "n/5 (>= 3) scenarios of the EXOTIC stream: stations, sessions and the constraint named from a pool of ids that "
+        "need JSON escaping (quote, backslash, control characters, DEL, non-ASCII, astral), are empty / blank-padded / 3000 "
+        "characters long, look like numbers, JSON literals or fragments, the model's own tags, or ARE registry ids (the "
+        "EV's session id is the id() string of itself / its battery / the network / the simulator / the queue - oracle "
+        "only); numpy integer and float16/32/64 scalars as EV fields and period; inf as requested energy, battery "
+        "capacity, constraint limit (nan requested energy: oracle only); tie-heavy layout so that several stations are "
+        "occupied at the crash; EVERY JSON run checks sharing (station / ev_history / pending unplug one object, for every "
+        "occupied station), integer types and document equality after the first AND after a second save/load, run d is "
+        "resumed from the twice-loaded simulator; every case carries probe strings / ints for the text-layer tie; "
         "one case per scheduler-invoked period k of the scenario + one "
         "non-invoked period; non-trivial = the failure fired with at least one EV connected or an event pending; "
         "distinct by hash of (scenario, k)")
@@ -519,7 +545,8 @@ def _gen_exotic(rng):
                     n[key] = rng.choice(["int64", "int64", "int32", "int16", "uint8", "uint32"])
             if rng.random() < 0.7:
                 n["requested"] = rng.choice(["float32", "float32", "float64", "float16"])
-                s_["requested"] = rng.randint(1, 96) / 8.0          # exact in every one of them
+                # a value of that type whose decimal text is long (7.300000190734863 = float32(7.3)): lossy conversions show
+                s_["requested"] = float(getattr(np, n["requested"])(rng.uniform(0.5, 12)))
             s_["np"] = n
         r = rng.random()
         if r < 0.15:
@@ -1235,8 +1262,11 @@ def _run_json(scn, k, store_hist, net_cls, want_store, reattach="fresh", twice=F
                 del algo2.calls[:]
                 out["rd_at_crash"] = _rd_state(algo2)
             sim2.update_scheduler(algo2)
-            js2 = sim2.to_json()
-            sim3 = Simulator.from_json(js2)
+            buf = io.StringIO()                 # the second hop goes through the file-like entry points
+            sim2.to_json(buf)                   # (json.dump + trailing newline / json.load)
+            js2 = buf.getvalue()
+            buf.seek(0)
+            sim3 = Simulator.from_json(buf)
             js3 = sim3.to_json()
         finally:
             w.__exit__(None, None, None)
@@ -1397,7 +1427,10 @@ def _compare_json(case, mj):
     diffs = []
     if mj is None:
         return ["json text: no model answer"]
-    for t, d in zip(req["docs"], mj["docs"]):
+    for t0, d in zip(req["docs"], mj["docs"]):
+        # what CPython makes of the document (so that a different but equivalent layout of to_json's text - indent,
+        # ensure_ascii=False, other separators - is not held against the MODEL of json.loads / json.dumps)
+        t = json.dumps(json.loads(t0))
         if d != t:
             at = next((i_ for i_, (x, y) in enumerate(zip(t, d or "")) if x != y), min(len(t), len(d or "")))
             diffs.append("json text: the modelled json.loads + json.dumps do not reproduce the document to_json() wrote"
@@ -1932,6 +1965,9 @@ def features(case, obs):
             f.append("float32_battery_resume=" + ("differs" if _same(a, c["obs"], "", k, None) else "same"))
     if c and c.get("fired") and c.get("twice") is not None:
         f.append("second_save_load_checked")
+    js = _JS_TEXT.get(C.case_hash(case))
+    if js is not None:
+        f.append("to_json_text_is_json.dumps_default=" + str(js == json.dumps(json.loads(js))))
     if obs.get("d") and obs["d"].get("fired") and obs["d"].get("twice"):
         f.append("resumed_after_two_round_trips")
     if obs.get("c3") is not None:
